@@ -42,3 +42,22 @@ def A_():
 
 
 S.LEMMAS["count"] = count_lemma_obligations
+
+
+def pfold_lemma_obligations():
+    """pfold_raises is monotone in the number of steps (induction on the distance)"""
+    from .query_model import pfold_raises, pfold, step_raises, LPart, UV
+    path = z3.Const("lem_path", sort_of(LPart))
+    v = z3.Const("lem_v", sort_of(UV))
+    n, d = z3.Int("lem_n"), z3.Int("lem_d")
+    unfold = lambda k: pfold_raises(path, k, v) == z3.Or(pfold_raises(path, k - 1, v), step_raises(l_at(path, k - 1), pfold(path, k - 1, v)))
+    P = lambda dd: z3.Implies(z3.And(n >= 0, pfold_raises(path, n, v)), pfold_raises(path, n + dd, v))
+    ln = l_len(path)
+    fail_step = z3.Implies(z3.And(0 <= n, n < ln, step_raises(l_at(path, n), pfold(path, n, v))), pfold_raises(path, ln, v))
+    mono = z3.Implies(z3.And(n + 1 <= ln, pfold_raises(path, n + 1, v)), pfold_raises(path, ln, v))  # instance of the monotonicity lemma
+    return [Obligation("lemma:pfold_failing_step", [unfold(n + 1), mono], fail_step, kind="lemma"),
+            Obligation("lemma:pfold_raises_monotone/base", [], P(z3.IntVal(0)), kind="lemma"),
+            Obligation("lemma:pfold_raises_monotone/step", [d >= 0, P(d), z3.Implies(n + d + 1 > 0, unfold(n + d + 1))], P(d + 1), kind="lemma")]
+
+
+S.LEMMAS["pfold"] = pfold_lemma_obligations
